@@ -35,8 +35,10 @@ LEVEL_TEXT = ("Theorems in coq/Properties_C02.v about the acceptor LTS of the ba
               "queued before the shutdown latch has been exported, the exporter was shut down exactly once and is never called again; later calls are inert. "
               "Termination (batch processors): coq/Batch/Fair.v proves, for every continuation trace with the application threads running, that a ForceFlush caller's "
               "exit condition holds after 16+6Q worker steps and that after shutdown the worker exits within a bound computed from the state (only assumption: the worker keeps "
-              "being scheduled; exporter calls return); likewise for the periodic reader's ForceFlush (coq/Batch/PeriodicFair.v: 34 steps of worker + collect thread plus 16 per timed-out cycle); the callers' own timed wait loops, the "
-              "periodic reader's Shutdown and the providers are covered by deadlock/step-limit detection only. Every trace the batch / periodic acceptors accept passes the history checkers that are run "
+              "being scheduled; exporter calls return); likewise for the periodic reader's ForceFlush (coq/Batch/PeriodicFair.v: 34 steps of worker + collect thread plus 16 per timed-out cycle) and "
+              "the periodic reader's Shutdown (coq/Batch/PeriodicShut.v: once the latch is stored the worker has left its loop - the state in which the caller's join returns - after 23 steps of worker + collect thread, "
+              "and every remaining step of the Shutdown caller is then enabled whatever the exporter answers; the acceptor requires the worker to re-read the latch between cycles); the callers' own timed wait loops "
+              "and the providers are covered by deadlock/step-limit detection only. Every trace the batch / periodic acceptors accept passes the history checkers that are run "
               "on the implementation's traces (coq/Batch/TraceSpec2.v, PeriodicTrace2.v; destructor calls must not overlap a Shutdown). "
               "Tied to the C++ by trace acceptance under the scheduler shim; history checkers run on the implementation's traces.")
 LEVEL_NOTE = ("Trusted: Coq kernel, extraction, ocaml/driver.ml, the scheduler shim and token table, the drivers and generators; the model is hand-written and "
